@@ -11,55 +11,59 @@ namespace PyxisVerif.C16
 open Gen
 
 /-- the tables in the source are the seven documented conventions -/
-theorem table_is_documented (s : String) : CC.fromStr s = documented.lookup s := by
-  sorry
+theorem table_is_documented (s : String) : CC.fromStr s = documented.lookup s :=
+  fromStr_eq_lookup s
 
-theorem fromStr_asStr (c : CC) : CC.fromStr (CC.asStr c) = some c := by
-  sorry
+theorem fromStr_asStr (c : CC) : CC.fromStr (CC.asStr c) = some c :=
+  fromStr_asStr' c
 
-theorem asStr_injective (a b : CC) (h : a.asStr = b.asStr) : a = b := by
-  sorry
+theorem asStr_injective (a b : CC) (h : a.asStr = b.asStr) : a = b :=
+  asStr_inj a b h
 
 /-- the documented defaults: thiscall with a receiver, system without, thiscall for placeholders -/
 theorem defaults_are_documented :
-    ccDefaultSelf = .Thiscall ∧ ccDefaultNoSelf = .System ∧ ccPlaceholder = .Thiscall := by
-  sorry
+    ccDefaultSelf = .Thiscall ∧ ccDefaultNoSelf = .System ∧ ccPlaceholder = .Thiscall :=
+  ⟨rfl, rfl, rfl⟩
 
 /-- **declared wins, default by receiver, unknown rejected**: whenever `function::build` accepts a
     function (impl or vftable), its convention is the one the property prescribes; in particular a
     function whose `calling_convention` names none of the seven is never accepted -/
 theorem built_cc (reg : Registry) (scope : List Path) (isVfunc : Bool) (f : G.Func) (sf : SFunc)
-    (h : buildFunction reg scope isVfunc f = .ok sf) : specCC f = some sf.cc := by
-  sorry
+    (h : buildFunction reg scope isVfunc f = .ok sf) : specCC f = some sf.cc :=
+  buildFunction_cc reg scope isVfunc f sf h
 
 theorem unknown_rejected (reg : Registry) (scope : List Path) (isVfunc : Bool) (f : G.Func)
     (h : specCC f = none) : (buildFunction reg scope isVfunc f).isOk = false := by
-  sorry
+  cases hb : buildFunction reg scope isVfunc f with
+  | ok sf => rw [buildFunction_cc reg scope isVfunc f sf hb] at h; cases h
+  | _ => rfl
 
 /-- placeholder slots are thiscall -/
-theorem placeholder_thiscall (i : Nat) : (placeholderFn i).cc = .Thiscall := by
-  sorry
+theorem placeholder_thiscall (i : Nat) : (placeholderFn i).cc = .Thiscall :=
+  rfl
 
 /-- the vftable slot of a function carries the function's convention -/
 theorem slot_carries_cc (owner : Path) (f : SFunc) :
-    ∃ args, (functionToRegion owner f).ty = .fn f.cc args f.ret := by
-  sorry
+    ∃ args, (functionToRegion owner f).ty = .fn f.cc args f.ret :=
+  ⟨_, rfl⟩
 
 /-- printer 1 (vftable slot types): the ABI string is `asStr` of the convention -/
 theorem slot_printer (cc : CC) (args : List (String × DTy)) (ret : Option DTy) :
-    ∃ rest, Emit.rtyStr (.fn cc args ret) = "unsafe extern \"" ++ cc.asStr ++ "\" fn(" ++ rest := by
-  sorry
+    ∃ rest, Emit.rtyStr (.fn cc args ret) = "unsafe extern \"" ++ cc.asStr ++ "\" fn(" ++ rest :=
+  rtyStr_fn cc args ret
 
 /-- printer 2 (address-bound wrappers): the ABI string is `asStr` of the convention -/
 theorem wrapper_printer (f : SFunc) (a : Nat) (h : f.body = .addr a) :
     ∃ hd sig ret args, Emit.methodS f =
       Sexp.mk "method" (hd ++ [Sexp.mk "call-addr" [.int a, .str f.cc.asStr, sig, ret, args]]) := by
-  sorry
+  unfold Emit.methodS
+  rw [h]
+  exact ⟨[_, _, _, _, _], _, _, _, rfl⟩
 
 /-- both printers therefore print the same ABI string for the same function, and two functions
     print the same string only if they have the same convention -/
-theorem printers_agree_iff (f g : SFunc) : f.cc.asStr = g.cc.asStr ↔ f.cc = g.cc := by
-  sorry
+theorem printers_agree_iff (f g : SFunc) : f.cc.asStr = g.cc.asStr ↔ f.cc = g.cc :=
+  ⟨asStr_inj _ _, fun h => by rw [h]⟩
 
 /-- a derived vftable that is accepted repeats every base slot *as a whole value*, so each
     inherited slot has the same convention in the derived table -/
@@ -68,7 +72,9 @@ theorem inherited_same (s s1 : State) (owner : Path) (vis : Vis) (fb : Option Re
     (h : buildVftable s owner vis fb (some fns) = (s1, .ok (some v, ptr)))
     (hb : baseVftable s1.reg fb = .ok (some (bn, bv))) :
     ∀ i (hi : i < bv.fns.length), ∃ (hj : i < v.fns.length), v.fns[i].cc = bv.fns[i].cc := by
-  sorry
+  intro i hi
+  obtain ⟨hj, he⟩ := buildVftable_inherited s s1 owner vis fb fns v ptr bn bv h hb i hi
+  exact ⟨hj, by rw [he]⟩
 
 /-! ## non-vacuity -/
 
